@@ -269,7 +269,7 @@ template <class V> int run_bfs(const std::string& alpha_path, int depth, const s
         std::string post = observe(y);
         g_cur.clear(); g_poison_key.clear();
         ++evals; ++histories;
-        if (!pre_done) { tr.emit_raw("{\"e\":\"Pre\",\"ty\":\"" + ty + "\",\"post\":" + pre + "}"); pre_done = true; }
+        if (!pre_done) { tr.emit_raw("{\"e\":\"Pre\",\"ty\":\"" + ty + "\",\"hist\":" + hist + ",\"post\":" + pre + "}"); pre_done = true; }
         tr.emit_raw(step_line("Edge", ty, op, o, "", post)); ++distinct;
         if (d + 1 < depth && seen.insert(post).second) { Hist nw(w); nw.push_back((unsigned short)oi); next.push_back(nw); }
       }
